@@ -84,7 +84,7 @@ if rc:
     sys.exit(2)
 result = {}
 try:
-    sh("/tmp/seedkit/mkmod.sh %s" % wt)
+    sh("/verif/tools/seedkit/mkmod.sh %s" % wt)
     mf = "-modfile=%s/_seed/go.mod -ldflags=-checklinkname=0" % wt
 
     def demo():
